@@ -51,6 +51,14 @@ pub fn shapes(thorough: bool) -> Vec<Shape> {
     add("logical-left-operand", 1, "(f(n + 1) and true)", "if n == 0 then true else (f(n - 1) and n > 0)", "true");
     add("logical-right-operand", 1, "(true && f(n + 1))", "if n == 0 then true else (n > 0 || false) && f(n - 1)", "true");
     add("coalesce-operand", 1, "(f(n + 1) ?? 0)", "if n == 0 then 0 else (f(n - 1) ?? 7) + 1", "300.0");
+    // two recursive calls side by side: the first failure ends the evaluation, the second operand / argument / item is never started
+    add("two-operands", 1, "f(n + 1) + f(n + 2)", "if n == 0 then 0 else 1 + f(n - 1) + 0 * f(0)", "300.0");
+    add("two-compared", 1, "f(n + 1) == f(n + 2)", "if n == 0 then true else f(n - 1) == f(0)", "true");
+    add("two-logical", 1, "(f(n + 1) and f(n + 2))", "if n == 0 then true else (f(n - 1) and f(0))", "true");
+    add("two-coalesced", 1, "(f(n + 1) ?? f(n + 2))", "if n == 0 then 0 else 1 + (f(n - 1) ?? f(0))", "300.0");
+    add("two-arguments", 1, "max(f(n + 1), f(n + 2))", "if n == 0 then 0 else max(1 + f(n - 1), f(0))", "300.0");
+    add("two-items", 1, "[f(n + 1), f(n + 2)][0]", "if n == 0 then 0 else [1 + f(n - 1), f(0)][0]", "300.0");
+    add("two-entries", 1, "{a: f(n + 1), b: f(n + 2)}.a", "if n == 0 then 0 else {a: 1 + f(n - 1), b: f(0)}.a", "300.0");
     add("list-literal", 1, "[f(n + 1)][0]", "if n == 0 then 0 else [1 + f(n - 1)][0]", "300.0");
     add("record-literal", 1, "{k: f(n + 1)}.k", "if n == 0 then 0 else {k: 1 + f(n - 1)}.k", "300.0");
     add("argument-position", 1, "max(f(n + 1), 0)", "if n == 0 then 0 else max(1 + f(n - 1), 0)", "300.0");
